@@ -7,6 +7,8 @@ from .. import paths
 from ..core import FUNC, call_attr, calls_in, const, dotted, is_const, kwarg, norm, text, walk_local
 
 EXPLANATION = [
+    "C11.loader-clobber: in device / gatt / gatt_server / att no per-item value of an outer loop is overwritten by a nested loop and used afterwards (a characteristic built with its last descriptor's permissions).",
+    'C11.permission-names: Attribute.Permissions.from_string obtains the flag names with split() and looks each up in the enum (no regular expression that can skip a name silently).',
     "C11.gate-argument: every read_value / write_value call of the GATT server's handlers passes the handler's own `bearer` parameter as the link to check.",
     'C11.absent-accessor: AttributeValue / AttributeValueV2 .read and .write raise on every path on which the accessor function is None (the access is refused, never answered as a success).',
     'C11.permissions-writers: `.permissions` of an attribute is assigned only in Attribute.__init__, from the constructor argument (directly or through Permissions.from_string): nothing clears requirement bits afterwards.',
@@ -507,7 +509,33 @@ def gate_argument(ctx):
     R.check(n >= 9, rule, f'{SRV} | gate calls', f'{n} calls', f'only {n} calls found')
 
 
+def permission_names(ctx):
+    """Attribute.Permissions.from_string recognises every flag name: the names are obtained by splitting the string on its
+    separators (`,` and `|`), so that a name the enum does not know raises - never by a pattern that can silently skip a
+    name (one that has no `_` in its character class loses all six *_REQUIRES_* flags)."""
+    R, p = ctx.r, ctx.p
+    rule = 'C11.permission-names'
+    fn = p.find('bumble.att.Attribute.Permissions.from_string')
+    ci = p.cls('bumble.att.Attribute.Permissions')
+    if fn is None or ci is None:
+        R.bad(rule, 'bumble.att.Attribute.Permissions.from_string', 'anchor missing')
+        return
+    names = [k for k, v in ci.assigns.items() if isinstance(v, ast.Constant) and isinstance(v.value, int)]
+    R.check(len(names) >= 8 and any('_' in k for k in names), rule, 'bumble.att.Attribute.Permissions | members', f'{len(names)} flags', f'only {len(names)} flags found', p.loc(ci.node))
+    rx = [c for c in calls_in(fn) if (dotted(c.func) or '').startswith('re.')]
+    splits = [c for c in calls_in(fn) if call_attr(c) == 'split']
+    lookups = [s_ for s_ in ast.walk(fn) if isinstance(s_, ast.Subscript) and (dotted(s_.value) or '').endswith('Permissions')]
+    R.check(bool(splits) and not rx and bool(lookups), rule, 'bumble.att.Attribute.Permissions.from_string', 'names obtained by split(), each looked up in the enum (an unknown name raises)', f'the flag names are extracted with `{norm(rx[0])[:60] if rx else "?"}`: a name the pattern does not match is dropped without an error, so a protected attribute declared with that flag is created without it and its value is served to anybody', p.loc(rx[0]) if rx else p.loc(fn))
+
+
+def loader_clobber(ctx):
+    from ..generic_rules import inner_loop_clobber
+    inner_loop_clobber(ctx, 'C11.loader-clobber', ['bumble.device', 'bumble.gatt', 'bumble.gatt_server', 'bumble.att'])
+
+
 RULES = [
+    ('C11.loader-clobber', loader_clobber),
+    ('C11.permission-names', permission_names),
     ('C11.gate-argument', gate_argument),
     ('C11.absent-accessor', absent_accessor),
     ('C11.permissions-writers', permissions_writers),
